@@ -305,11 +305,8 @@ class MultiTypeMap(dict):
     def wrap_dependent(self, tup, handlers, group, next_call):
         handlers = list(handlers)
         htup = [(h, self.type_tuples[h]) for h in handlers]
-        slf = (
-            "self, "
-            if inspect.getfullargspec(handlers[0]).args[0] == "self"
-            else ""
-        )
+        first_args = inspect.getfullargspec(handlers[0]).args
+        slf = "self, " if first_args and first_args[0] == "self" else ""
         return generate_dependent_dispatch(
             tup,
             htup,
